@@ -170,6 +170,18 @@ ReqEnoughSteps(m, n, o) ==
   LET mo == MethodOrder(m, n, o)
   IN  MinNumSteps(m, n, mo) >= NumTerms(m, n, o)
 
+
+----------------------------------------------------------------------------
+(* Where the quotient evaluates f (C05, design level): offsets beta*h of the selected stencil *)
+Betas(name) == LET st == Stencil(name) IN {st.terms[j].beta : j \in 1..Len(st.terms)}
+IsRealO(b) == b[2] = Zero /\ b[3] = Zero /\ b[4] = Zero
+ReqAdmissibleOffsets(m, n, o) ==
+  LET bs == Betas(DiffName(m, n, o)) IN
+  /\ m = "forward"  => \A b \in bs : IsRealO(b) /\ RSign(b[1]) > 0
+  /\ m = "backward" => \A b \in bs : IsRealO(b) /\ RSign(b[1]) < 0
+  /\ m = "central"  => \A b \in bs : IsRealO(b) /\ ONeg(b) \in bs
+  /\ (m = "complex" /\ n = 1 /\ o < 4) => bs = {OI}          \* real part of every argument is x
+
 ----------------------------------------------------------------------------
 (* Exact rule weights for a rational step ratio r: row RuleIndex of the inverse of               *)
 (*   M[i][j] = c_j t_j^i,  c_j = c_0/k_j!,  t_j = r^(-k_j).                                       *)
